@@ -2,7 +2,7 @@
 
 from __future__ import annotations
 
-from typing import Callable, ClassVar, Final
+from typing import Any, Callable, ClassVar, Final
 
 import jax
 from jax2onnx._compat.jax import (
@@ -46,7 +46,7 @@ _JAX_LOG_SIGMOID_ORIG: Final = jax.nn.log_sigmoid
             "callable": lambda x: jax.nn.log_sigmoid(x),
             "input_shapes": [(2, 5)],
             "post_check_onnx_graph": EG(
-                ["Sigmoid:2x5 -> Log:2x5"],
+                ["Neg:2x5 -> Softplus:2x5 -> Neg:2x5"],
                 no_unused_inputs=True,
             ),
         },
@@ -55,7 +55,7 @@ _JAX_LOG_SIGMOID_ORIG: Final = jax.nn.log_sigmoid
             "callable": lambda x: jax.nn.log_sigmoid(x),
             "input_shapes": [("B", 4)],
             "post_check_onnx_graph": EG(
-                ["Sigmoid:Bx4 -> Log:Bx4"],
+                ["Neg:Bx4 -> Softplus:Bx4 -> Neg:Bx4"],
                 symbols={"B": None},
                 no_unused_inputs=True,
             ),
@@ -95,23 +95,24 @@ class LogSigmoidPlugin(PrimitiveLeafPlugin):
         out_type = getattr(out_spec, "type", None) or getattr(x_val, "type", None)
         out_shape = getattr(out_spec, "shape", None) or getattr(x_val, "shape", None)
 
-        sig = ctx.builder.Sigmoid(
-            x_val,
-            _outputs=[ctx.fresh_name("log_sigmoid_sigmoid")],
-        )
-        if out_type is not None:
-            sig.type = out_type
-        if out_shape is not None:
-            sig.shape = out_shape
+        # log(sigmoid(x)) loses all precision once sigmoid(x) rounds (x <= -8 in
+        # float32, and sigmoid(x) == 1 for large x); JAX evaluates -softplus(-x).
+        def _like_output(value: Any) -> Any:
+            if out_type is not None:
+                value.type = out_type
+            if out_shape is not None:
+                value.shape = out_shape
+            return value
 
-        result = ctx.builder.Log(
-            sig,
-            _outputs=[desired_name],
+        negated = _like_output(
+            ctx.builder.Neg(x_val, _outputs=[ctx.fresh_name("log_sigmoid_neg_in")])
         )
-        if out_type is not None:
-            result.type = out_type
-        if out_shape is not None:
-            result.shape = out_shape
+        softplus = _like_output(
+            ctx.builder.Softplus(
+                negated, _outputs=[ctx.fresh_name("log_sigmoid_softplus")]
+            )
+        )
+        result = _like_output(ctx.builder.Neg(softplus, _outputs=[desired_name]))
         ctx.bind_value_for_var(out_var, result)
 
     @classmethod
